@@ -643,7 +643,7 @@ func runC04(c *ev.Ctx) {
 // ---------------- C05 ----------------
 
 func runC05(c *ev.Ctx) {
-	c.Rule = refRule + "; the reference spectrum comes from an independent FFT that is itself validated against direct summation on this run; a case whose reference N1 interval is wider than one value is counted as ambiguous and accepted for any N1 in it"
+	c.Rule = refRule + "; the reference spectrum comes from an independent FFT that is itself validated against direct summation on this run; a case in which a magnitude lies within 2e-12*sqrt(n) of the threshold is counted as ambiguous and accepted for either count"
 	c.Assumptions = refAssume
 	seed := uint64(c.Seed)
 	r := gen.NewRng(gen.Mix(seed, 505))
